@@ -127,3 +127,47 @@ class Tracer:
             except Unfoldable:
                 ret = ('unfoldable', fmt(p.ret)[:100])
         return events, ret, p
+
+
+def simulate(paths, classify, make_model, base_leaf, generic=None, skip_loop_paths=True):
+    """Fold enumerated paths against a stateful environment model.
+
+    classify(effect) -> None | ('R', key_terms) | ('W', key_terms, value_term): which effects are environment
+    accesses; key/value terms are folded under the valuation built so far.  make_model() returns an object with
+    read(*keys) -> int and write(*keys, value).  base_leaf(term) supplies the other inputs.
+    Returns list of (path, model, folder, log) for every path all of whose conditions hold."""
+    out = []
+    for p in paths:
+        if skip_loop_paths and p.end and p.end[0] == 'loop':
+            continue
+        model = make_model()
+        rd = {}
+
+        def leaf(t, rd=rd):
+            if t[0] == 'call' and t[1] in rd:
+                return rd[t[1]]
+            return base_leaf(t)
+        fo = Folder(leaf, generic=generic or {})
+        log = []
+        ok = True
+        try:
+            for e in p.effects:
+                c = classify(e)
+                if not c:
+                    continue
+                keys = tuple(fo.ev(k) for k in c[1])
+                if c[0] == 'R':
+                    v = model.read(*keys)
+                    rd[e[1]] = v
+                    log.append(('R', keys, v, e[1]))
+                else:
+                    v = fo.ev(c[2])
+                    model.write(*(keys + (v,)))
+                    log.append(('W', keys, v, e[1]))
+            if not path_holds(fo, p):
+                ok = False
+        except Unfoldable:
+            ok = False
+        if ok:
+            out.append((p, model, fo, log))
+    return out
